@@ -1,5 +1,5 @@
 """C01 - the parse/compile pipeline is total and fails only with typed, located errors."""
-from . import totality_rules as tr, parser_rules as pr, error_rules as er, line_rules as lr
+from . import totality_rules as tr, parser_rules as pr, error_rules as er, line_rules as lr, dialect_rules as dr, builder_rules as br
 
 META = {
     "level": "other",
@@ -27,3 +27,6 @@ def run(rep):
     er.rule_messages(rep, "C01.located")
     er.rule_stream(rep, "C01.stream")
     lr.rule_split(rep, "C01.split", "C01.splitcol")
+    dr.rule_data(rep, "C01.data")
+    dr.rule_dialect(rep, "C01.dialect")
+    br.rule_rect(rep, "C01.rect")
